@@ -32,6 +32,12 @@ Not covered: extent mapping arithmetic in File.Read/Write, directory block packi
 
 const pE4c = "filesystem/ext4"
 
+func init() {
+	register("C20", runC20, `One structural clause of reading reference-made ext4 volumes, decided statically.
+C20-a an image feature the library does not support must surface as an error, not a crash: an inode decoded from the image (readInode / inodeFromBytes) has no extent tree when it maps its blocks the ext2/ext3 way (mke2fs without the extent feature - in the property's quantifier), when it is a symlink stored in the inode, or a special file; every method call on its extents field is dominated by a nil test of that field.
+Not covered (and not claimed): that decoded values equal what e2fsprogs wrote - hashed directories, interior extent nodes, holes, xattrs, feature gating of other incompatible features. Those need the reference implementation as an oracle; no static rule here decides them.`)
+}
+
 func runC05(w *World, r *Report) {
 	c05Flush(w, r)
 	c05ChecksumLast(w, r)
@@ -998,6 +1004,14 @@ func mentionsEOF(w *World, fn *ssa.Function, seen map[*ssa.Function]bool, d int)
 // by a test of that field against nil: symlinks stored in the inode and special files have none.
 // OpenFile and openFileViaInode test it; the same holds for every other such site (contradiction rule).
 func c04ExtentsNil(w *World, r *Report) {
+	extentsNilRule(w, r, "C04-d", inodeOfArbitraryEntry, "extent tree of an arbitrary entry's inode is tested before use",
+		"a method is called on inode.extents of an inode read from an arbitrary directory entry without testing it against nil: a symlink whose target is stored in the inode (and a special file) has no extent tree, so the call panics",
+		"no use of the extent tree of an arbitrary entry's inode")
+}
+
+// extentsNilRule: every interface method call on the extents field of an inode selected by pick must be dominated by
+// the non-nil edge of a nil test of that same field.
+func extentsNilRule(w *World, r *Report, rule string, pick func(ssa.Value) bool, construct, fail, none string) {
 	n := 0
 	for _, fn := range w.ModFns {
 		if w.pkgOf(fn) != pE4c || fn.Blocks == nil {
@@ -1021,7 +1035,7 @@ func c04ExtentsNil(w *World, r *Report) {
 			if !ok || nm == nil || nm.Obj().Name() != "inode" || fld.Name() != "extents" {
 				return
 			}
-			if !inodeOfArbitraryEntry(base) {
+			if !pick(base) {
 				return
 			}
 			k++
@@ -1053,13 +1067,34 @@ func c04ExtentsNil(w *World, r *Report) {
 					guarded = true
 				}
 			}
-			r.Check(guarded, "C04-d", fnName(fn), fmt.Sprintf("extent tree of an arbitrary entry's inode is tested before use #%d", k), w.relFile(c.Pos()), "",
-				"a method is called on inode.extents of an inode read from an arbitrary directory entry without testing it against nil: a symlink whose target is stored in the inode (and a special file) has no extent tree, so the call panics")
+			r.Check(guarded, rule, fnName(fn), fmt.Sprintf("%s #%d", construct, k), w.relFile(c.Pos()), "", fail)
 		})
 	}
 	if n == 0 {
-		r.Ok("C04-d", "filesystem/ext4", "no use of the extent tree of an arbitrary entry's inode", "filesystem/ext4", "")
+		r.Ok(rule, "filesystem/ext4", none, "filesystem/ext4", "")
 	}
+}
+
+// inodeDecodedFromImage: v is the inode returned by readInode(...) or inodeFromBytes(...): it describes whatever
+// the image holds.
+func inodeDecodedFromImage(v ssa.Value) bool {
+	ex, ok := stripConv(v).(*ssa.Extract)
+	if !ok {
+		return false
+	}
+	c, ok := ex.Tuple.(*ssa.Call)
+	if !ok {
+		return false
+	}
+	g := c.Call.StaticCallee()
+	return g != nil && (g.Name() == "readInode" || g.Name() == "inodeFromBytes")
+}
+
+func runC20(w *World, r *Report) {
+	extentsNilRule(w, r, "C20-a", inodeDecodedFromImage, "extent tree of an inode decoded from the image is tested before use",
+		"a method is called on inode.extents of an inode decoded from the image without testing it against nil: an inode that maps its blocks without extents (ext2/ext3-style files and directories, which mke2fs produces without the extent feature), a symlink stored in the inode or a special file has no extent tree, so reading it panics instead of failing with an error",
+		"no use of the extent tree of an inode decoded from the image")
+	r.Floor("C20-a", r.countRule("C20-a"), 5)
 }
 
 // inodeOfArbitraryEntry: v is the inode returned by readInode(e.inode) where e is a *directoryEntry reached
